@@ -156,7 +156,7 @@ def coq_string(s):
 
 def gen_panics():
     sites = panic_sites(PANIC_FILES)
-    body = "(* GENERATED by gen/translate.py from /repo's working tree: inventory of potential panic\n   sites (unwrap, expect, panic!, indexing, Buf cursor ops, shifts, narrowing casts) in the\n   files that handle peer-controlled data.  Do not edit. *)\nFrom Coq Require Import String List.\nImport ListNotations.\nOpen Scope string_scope.\n\nDefinition sites : list string := [\n"
+    body = "(* GENERATED by gen/translate.py from /repo's working tree: inventory of potential panic\n   sites (unwrap, expect, panic!, indexing, Buf cursor ops, shifts, narrowing casts) in the\n   files that handle peer-controlled data.  Do not edit. *)\nFrom Coq Require Import String List.\nImport ListNotations.\nLocal Open Scope string_scope.\n\nDefinition sites : list string := [\n"
     body += ";\n".join("  " + coq_string(s) for s in sites)
     body += "\n].\n"
     return body, sites
@@ -244,7 +244,7 @@ def gen_ladder():
         spell = [x.replace("\\|", "|") for x in re.findall(r"`([^`]*)`", cells[3])]
         doc.append((cells[0], cells[1].replace("\\|", "|"), cells[2], spell))
     body = "(* GENERATED by gen/translate.py from milu/src/parser.rs and milu/readme.md.  Do not edit. *)\n"
-    body += "From Coq Require Import String List NArith.\nImport ListNotations.\nFrom RP Require Import MiluSyntax.\nOpen Scope string_scope.\n\n"
+    body += "From Coq Require Import String List NArith.\nImport ListNotations.\nFrom RP Require Import MiluSyntax.\nLocal Open Scope string_scope.\n\n"
     body += "Definition levels : list level := [\n" + ";\n".join(
         "  mk_level %s %s [%s]" % (coq_string(n), coq_string(nx), "; ".join("(%s, %s)" % (coq_string(t), "true" if nc else "false") for t, nc in tags))
         for n, nx, tags in levels) + "\n].\n\n"
